@@ -5,6 +5,7 @@ From CyVerif Require Import Lib.CInt Model.M_IntFmt Proof.P_IntFmtDigits.
 Import ListNotations.
 Open Scope Z_scope.
 (* lia is used for linear goals only in this file (div/mod facts come from part 1) *)
+Ltac Zify.zify_post_hook ::= idtac.
 
 (* the do-while loop for 'o' and 'd' *)
 Lemma pair_loop w s fc b table hexoff : 1 <= w -> is_pair_fc fc b table ->
@@ -20,16 +21,16 @@ Proof.
   intros Hw Hfc.
   assert (Hb8 : b = 8 \/ b = 10) by (destruct Hfc as [(_ & -> & _)|(_ & -> & _)]; auto).
   assert (Hc : b * b = 64 \/ b * b = 100 \/ b * b = 16) by (destruct Hb8 as [->| ->]; auto).
-  induction fuel as [|fuel IH]; intros rem dpos buf loo0 m Hr Hf Hm Hle Hd.
-  all: assert (M0 : 0 <= m / 6) by (apply Z.div_pos; lia).
-  all: rewrite (pair_unfold w s fc b table) by (try assumption; lia); cbv zeta.
-  all: pose proof (Z.abs_nonneg rem) as Hn; pose proof (quot_abs_pair b rem Hb8) as AQ.
-  all: destruct (Z.eqb_spec (Z.quot rem (b * b)) 0) as [E|E].
-  1,3: assert (E0 : Z.abs rem / (b * b) = 0) by (rewrite <- AQ, E; reflexivity).
-  1,2: exists 2, (Z.abs rem mod (b * b) <? b).
-  1,2: rewrite app_assoc, <- (last_pass_chars b (Z.abs rem)) by assumption.
-  1,2: cbn [app length]; repeat split; lia.
-  all: assert (E0 : Z.abs rem / (b * b) <> 0) by (rewrite <- AQ; lia).
+  induction fuel as [|fuel IH]; intros rem dpos buf loo0 m Hr Hf Hm Hle Hd;
+    assert (M0 : 0 <= m / 6) by (apply Z.div_pos; lia);
+    rewrite (pair_unfold w s fc b table) by (try assumption; lia); cbv zeta;
+    pose proof (Z.abs_nonneg rem) as Hn; pose proof (quot_abs_pair b rem Hb8) as AQ;
+    (destruct (Z.eqb_spec (Z.quot rem (b * b)) 0) as [E|E];
+     [ assert (E0 : Z.abs rem / (b * b) = 0) by (rewrite <- AQ, E; reflexivity);
+       exists 2, (Z.abs rem mod (b * b) <? b);
+       rewrite app_assoc, <- (last_pass_chars b (Z.abs rem)) by assumption;
+       cbn [app length]; repeat split; lia
+     | assert (E0 : Z.abs rem / (b * b) <> 0) by (rewrite <- AQ; lia) ]).
   - destruct (more_pass_bounds b (Z.abs rem) 0 0 Hb8 Hn E0) as (N64 & _).
     change (2 ^ Z.of_nat 1) with 2 in Hf. lia.
   - destruct (more_pass_bounds b (Z.abs rem) (2 ^ (m - 6)) (2 ^ Z.of_nat (S fuel)) Hb8 Hn E0)
@@ -65,16 +66,16 @@ Lemma hex_loop w s (upp : bool) : 1 <= w ->
     /\ k <= m / 4 + 1.
 Proof.
   intros Hw.
-  induction fuel as [|fuel IH]; intros rem dpos buf loo0 m Hr Hf Hm Hle Hd.
-  all: assert (M0 : 0 <= m / 4) by (apply Z.div_pos; lia).
-  all: rewrite hex_unfold by (try assumption; lia); cbv zeta.
-  all: pose proof (Z.abs_nonneg rem) as Hn; pose proof (quot_abs_16 rem) as AQ.
-  all: destruct (Z.eqb_spec (Z.quot rem 16) 0) as [E|E].
-  1,3: assert (E0 : Z.abs rem / 16 = 0) by (rewrite <- AQ, E; reflexivity).
-  1,2: exists 1.
-  1,2: rewrite <- (hex_last upp (Z.abs rem)) by assumption.
-  1,2: cbn [app length]; repeat split; lia.
-  all: assert (E0 : Z.abs rem / 16 <> 0) by (rewrite <- AQ; lia).
+  induction fuel as [|fuel IH]; intros rem dpos buf loo0 m Hr Hf Hm Hle Hd;
+    assert (M0 : 0 <= m / 4) by (apply Z.div_pos; lia);
+    rewrite hex_unfold by (try assumption; lia); cbv zeta;
+    pose proof (Z.abs_nonneg rem) as Hn; pose proof (quot_abs_16 rem) as AQ;
+    (destruct (Z.eqb_spec (Z.quot rem 16) 0) as [E|E];
+     [ assert (E0 : Z.abs rem / 16 = 0) by (rewrite <- AQ, E; reflexivity);
+       exists 1;
+       rewrite <- (hex_last upp (Z.abs rem)) by assumption;
+       cbn [app length]; repeat split; lia
+     | assert (E0 : Z.abs rem / 16 <> 0) by (rewrite <- AQ; lia) ]).
   - destruct (hex_bounds (Z.abs rem) 0 0 Hn E0) as (N16 & _).
     change (2 ^ Z.of_nat 1) with 2 in Hf. lia.
   - destruct (hex_bounds (Z.abs rem) (2 ^ (m - 4)) (2 ^ Z.of_nat (S fuel)) Hn E0)
@@ -95,4 +96,224 @@ Proof.
       * f_equal; [lia|]. rewrite <- !app_assoc. reflexivity.
       * rewrite !app_length in *. cbn [length]. lia.
       * lia.
+Qed.
+
+(* ---------- from the loop to the text ---------- *)
+Definition valid_fc (fc : Z) : Prop := fc = 100 \/ fc = 111 \/ fc = 120 \/ fc = 88.
+
+Lemma abs_bound w s v : 1 <= w -> in_range w s v ->
+  Z.abs v < 2 ^ Z.of_nat (loop_fuel w) /\ Z.abs v <= 2 ^ (if s then w - 1 else w).
+Proof.
+  intros Hw Hr. unfold loop_fuel. rewrite pow2_succ_nat.
+  replace (Z.of_nat (Z.to_nat w)) with w by lia.
+  pose proof (pow2_split w Hw). pose proof (pow2_pos (w - 1) ltac:(lia)).
+  unfold in_range, min_int, max_int in Hr. destruct s; lia.
+Qed.
+
+Lemma digits_phase w s v fc : 1 <= w -> in_range w s v -> valid_fc fc ->
+  exists dpos loo,
+    digits_loop (loop_fuel w) w s (if fc =? 88 then 120 else fc) (if fc =? 88 then 16 else 0)
+                v (buf_size w) [] false
+      = LDone dpos (opt0 loo ++ py_digits (fmt_base fc) (fmt_upper fc) (Z.abs v)) loo
+    /\ dpos + b2z loo = buf_size w - Z.of_nat (length (py_digits (fmt_base fc) (fmt_upper fc) (Z.abs v)))
+    /\ Z.of_nat (length (py_digits (fmt_base fc) (fmt_upper fc) (Z.abs v))) + b2z s <= buf_size w.
+Proof.
+  intros Hw Hr Hfc. destruct (abs_bound w s v Hw Hr) as [F M].
+  destruct (buf_bounds w Hw) as (B1 & B2 & B3 & B4).
+  set (m := if s then w - 1 else w) in *.
+  assert (Hm : 0 <= m) by (subst m; destruct s; lia).
+  assert (M6 : 2 * (m / 6 + 1) + b2z s <= buf_size w) by (subst m; destruct s; cbn [b2z]; lia).
+  assert (M4 : m / 4 + 1 + b2z s <= buf_size w) by (subst m; destruct s; cbn [b2z]; lia).
+  assert (Zs : 0 <= b2z s) by (destruct s; cbn; lia).
+  unfold loop_fuel in *.
+  destruct Hfc as [-> | [-> | [-> | ->]]].
+  - destruct (pair_loop w s 100 10 DIGIT_PAIRS_10 0 Hw ltac:(right; auto) (Z.to_nat w) v (buf_size w)
+                [] false m Hr F Hm M ltac:(lia)) as (k & loo & L & K1 & K2).
+    exists (buf_size w - k), loo. change (100 =? 88) with false. cbv iota.
+    change (fmt_base 100) with 10. change (fmt_upper 100) with false.
+    rewrite L, app_nil_r. rewrite app_length in K1. destruct loo; cbn [opt0 length b2z] in *; repeat split; lia.
+  - destruct (pair_loop w s 111 8 DIGIT_PAIRS_8 0 Hw ltac:(left; auto) (Z.to_nat w) v (buf_size w)
+                [] false m Hr F Hm M ltac:(lia)) as (k & loo & L & K1 & K2).
+    exists (buf_size w - k), loo. change (111 =? 88) with false. cbv iota.
+    change (fmt_base 111) with 8. change (fmt_upper 111) with false.
+    rewrite L, app_nil_r. rewrite app_length in K1. destruct loo; cbn [opt0 length b2z] in *; repeat split; lia.
+  - destruct (hex_loop w s false Hw (Z.to_nat w) v (buf_size w) [] false m Hr F Hm M ltac:(lia))
+      as (k & L & K1 & K2).
+    exists (buf_size w - k), false. change (120 =? 88) with false. cbv iota.
+    change (fmt_base 120) with 16. change (fmt_upper 120) with false.
+    rewrite L, app_nil_r. cbn [opt0 app b2z]. repeat split; lia.
+  - destruct (hex_loop w s true Hw (Z.to_nat w) v (buf_size w) [] false m Hr F Hm M ltac:(lia))
+      as (k & L & K1 & K2).
+    exists (buf_size w - k), false. change (88 =? 88) with true. cbv iota.
+    change (fmt_base 88) with 16. change (fmt_upper 88) with true.
+    rewrite L, app_nil_r. cbn [opt0 app b2z]. repeat split; lia.
+Qed.
+
+Lemma rep_if (p x : Z) : (if 0 <? x then repeat p (Z.to_nat x) else []) = repeat p (Z.to_nat x).
+Proof.
+  destruct (Z.ltb_spec 0 x); [reflexivity|]. replace (Z.to_nat x) with 0%nat by lia. reflexivity.
+Qed.
+
+Lemma bfa ul chars cl (ps : bool) pad : cl = Z.of_nat (length chars) -> cl <= ul ->
+  build_from_ascii ul chars cl ps pad =
+    Text ((if 0 <? ul - cl then
+             (if ps then 45 :: repeat pad (Z.to_nat (ul - cl - 1)) else repeat pad (Z.to_nat (ul - cl)))
+           else []) ++ chars).
+Proof.
+  intros -> H. unfold build_from_ascii.
+  destruct (Z.ltb_spec (Z.of_nat (length chars)) 0); [lia|].
+  destruct (Z.ltb_spec (Z.of_nat (length chars)) (Z.of_nat (length chars))); [lia|]. cbn [orb].
+  destruct (Z.ltb_spec (ul - Z.of_nat (length chars)) 0); [lia|].
+  rewrite Nat2Z.id, firstn_all. reflexivity.
+Qed.
+
+Lemma single {A} (l : list A) : length l = 1%nat -> exists c, l = [c].
+Proof. destruct l as [|c [|d r]]; cbn; intros H; try discriminate. exists c. reflexivity. Qed.
+
+(* main theorem: CIntToPyUnicode returns exactly CPython's text; in particular no write leaves
+   the buffer, no table index is out of range, the assert holds, the loop terminates *)
+Theorem format_eq w s v width pad fc :
+  1 <= w -> in_range w s v -> valid_fc fc ->
+  cint_to_unicode w s v width pad fc = Text (py_format_int v width pad fc).
+Proof.
+  intros Hw Hr Hfc.
+  destruct (digits_phase w s v fc Hw Hr Hfc) as (dpos & loo & L & P & S).
+  assert (Hokb : okb (fmt_base fc)).
+  { destruct Hfc as [-> | [-> | [-> | ->]]]; unfold okb; cbn; auto. }
+  pose proof (py_digits_nonempty (fmt_base fc) (fmt_upper fc) (Z.abs v) Hokb (Z.abs_nonneg v)) as NE.
+  unfold cint_to_unicode, py_format_int. rewrite L.
+  set (D := py_digits (fmt_base fc) (fmt_upper fc) (Z.abs v)) in *.
+  assert (A : (if loo then match opt0 loo ++ D with
+                            | c :: rest => if c =? 48 then Some rest else None | [] => None end
+               else Some (opt0 loo ++ D)) = Some D) by (destruct loo; reflexivity).
+  rewrite A. clear A L.
+  replace (buf_size w - (dpos + b2z loo)) with (Z.of_nat (length D)) by lia.
+  set (n := Z.of_nat (length D)) in *.
+  assert (Hn : 1 <= n) by (subst n; lia).
+  destruct s; cbn [andb b2z] in *.
+  - destruct (Z.leb_spec v (-1)) as [Neg|Pos].
+    + assert (V : (v <? 0) = true) by lia. rewrite V. cbn [length app].
+      destruct (Z.eqb_spec pad 32) as [P32|P32]; cbn [orb].
+      * destruct (Z.ltb_spec (dpos + b2z loo - 1) 0); [lia|].
+        destruct (Z.eqb_spec (Z.max (n + 1) width) 1); [lia|].
+        rewrite bfa by (cbn [length]; lia). rewrite rep_if. cbn [app]. f_equal. f_equal. f_equal. lia.
+      * destruct (Z.leb_spec width (n + 1)).
+        -- destruct (Z.ltb_spec (dpos + b2z loo - 1) 0); [lia|].
+           destruct (Z.eqb_spec (Z.max (n + 1) width) 1); [lia|].
+           rewrite bfa by (cbn [length]; lia). rewrite rep_if.
+           replace (Z.to_nat (Z.max (n + 1) width - (n + 1))) with 0%nat by lia.
+           replace (Z.to_nat (width - Z.of_nat (1 + length D))) with 0%nat by lia. reflexivity.
+        -- destruct (Z.eqb_spec (Z.max (n + 1) width) 1); [lia|].
+           rewrite bfa by lia.
+           destruct (Z.ltb_spec 0 (Z.max (n + 1) width - n)); [|lia].
+           cbn [app]. f_equal. f_equal. f_equal. f_equal. lia.
+    + assert (V : (v <? 0) = false) by lia. rewrite V. cbn [length app].
+      destruct (Z.eqb_spec (Z.max n width) 1) as [U|U].
+      * destruct (single D ltac:(lia)) as [c ->]. cbn [length].
+        replace (Z.to_nat (width - Z.of_nat (0 + 1))) with 0%nat by lia.
+        cbn [repeat app]. destruct (pad =? 32); reflexivity.
+      * rewrite bfa by lia. rewrite rep_if.
+        replace (Z.to_nat (width - Z.of_nat (0 + length D))) with (Z.to_nat (Z.max n width - n)) by lia.
+        destruct (pad =? 32); reflexivity.
+  - assert (V : (v <? 0) = false) by (unfold in_range, min_int in Hr; lia). rewrite V. cbn [length app].
+    destruct (Z.eqb_spec (Z.max n width) 1) as [U|U].
+    + destruct (single D ltac:(lia)) as [c ->]. cbn [length].
+      replace (Z.to_nat (width - Z.of_nat (0 + 1))) with 0%nat by lia.
+      cbn [repeat app]. destruct (pad =? 32); reflexivity.
+    + rewrite bfa by lia. rewrite rep_if.
+      replace (Z.to_nat (width - Z.of_nat (0 + length D))) with (Z.to_nat (Z.max n width - n)) by lia.
+      destruct (pad =? 32); reflexivity.
+Qed.
+
+Theorem no_error w s v width pad fc e :
+  1 <= w -> in_range w s v -> valid_fc fc -> cint_to_unicode w s v width pad fc <> Err e.
+Proof. intros Hw Hr Hfc. rewrite format_eq by assumption. discriminate. Qed.
+
+(* the digits in the produced text: valid for the base and case, value |v|, no leading zero *)
+Theorem digits_correct w s v fc :
+  1 <= w -> in_range w s v -> valid_fc fc ->
+  exists ds,
+    cint_to_unicode w s v 0 32 fc = Text ((if v <? 0 then [45] else []) ++ ds)
+    /\ parse_base (fmt_base fc) ds = Z.abs v
+    /\ forallb (is_digit_of (fmt_base fc) (fmt_upper fc)) ds = true
+    /\ no_leading_zero (Z.abs v) ds.
+Proof.
+  intros Hw Hr Hfc. rewrite format_eq by assumption.
+  assert (Hokb : okb (fmt_base fc)).
+  { destruct Hfc as [-> | [-> | [-> | ->]]]; unfold okb; cbn; auto. }
+  exists (py_digits (fmt_base fc) (fmt_upper fc) (Z.abs v)).
+  destruct (py_digits_correct (fmt_base fc) (fmt_upper fc) Hokb (S (Z.to_nat (Z.abs v))) (Z.abs v)
+              ltac:(lia)) as (P1 & P2 & P3).
+  repeat split; try assumption.
+  unfold py_format_int. change (32 =? 32) with true. cbv iota.
+  replace (Z.to_nat (0 - _)) with 0%nat by lia. reflexivity.
+Qed.
+
+(* ---------- 'c' ---------- *)
+Lemma accepts_fixed w s v : 1 <= w -> in_range w s v ->
+  uchar_accepts true w s v = (0 <=? v) && (v <? 1114112).
+Proof.
+  intros Hw Hr. unfold uchar_accepts.
+  destruct (Z.ltb_spec v 0) as [Neg|Pos].
+  - assert (s = true) by (destruct s; [reflexivity|unfold in_range, min_int in Hr; lia]). subst s.
+    cbn [negb orb]. lia.
+  - assert (C1 : negb s || (v =? 0) || (0 <? v) = true) by lia. rewrite C1. cbn [andb].
+    rewrite land_high by assumption.
+    destruct (Z.leb_spec (sizeof w) 2) as [Sm|Lg]; cbn [orb].
+    + pose proof (small_type w s v Hw Sm Hr). lia.
+    + destruct (Z.ltb_spec v 2097152); cbn [negb andb]; [rewrite int_id by lia|]; lia.
+Qed.
+
+Theorem char_range_fixed w s v width pad :
+  1 <= w -> in_range w s v -> uchar_to_unicode true w s v width pad = py_format_char v width pad.
+Proof.
+  intros Hw Hr. unfold uchar_to_unicode, py_format_char. rewrite accepts_fixed by assumption.
+  destruct ((0 <=? v) && (v <? 1114112)) eqn:A; cbn [negb]; [|reflexivity].
+  assert (R : 0 <= v < 1114112) by lia. rewrite int_id by lia.
+  destruct (mods v) as [M1 M2].
+  destruct (Z.leb_spec width 1).
+  - unfold from_ordinal. replace (Z.to_nat (width - 1)) with 0%nat by lia.
+    assert (B : (0 <=? v) && (v <=? 1114111) = true) by lia. rewrite B. reflexivity.
+  - unfold from_ordinal_padded, from_ordinal.
+    assert (B : (0 <=? v) && (v <=? 1114111) = true) by lia. rewrite B.
+    destruct ((width - 1 <=? 250) && ((v <? 55296) || (57343 <? v))).
+    + destruct (Z.leb_spec v 255); [rewrite M1 by lia; reflexivity|].
+      destruct (Z.ltb_spec v 65536); [reflexivity|].
+      rewrite M2 by lia.
+      assert (B2 : (65536 <=? v) && (v <=? 1114111) = true) by lia. rewrite B2. reflexivity.
+    + destruct (Z.leb_spec v 127); [|reflexivity].
+      destruct (Z.ltb_spec v 0); [lia|reflexivity].
+Qed.
+
+(* the test as written agrees with the repaired one below 0x200000 and for 8/16-bit types *)
+Theorem char_range_partial w s v width pad :
+  1 <= w -> in_range w s v -> (v < 2097152 \/ sizeof w <= 2) ->
+  uchar_to_unicode false w s v width pad = py_format_char v width pad.
+Proof.
+  intros Hw Hr H. rewrite <- char_range_fixed with (w := w) (s := s) by assumption.
+  unfold uchar_to_unicode. replace (uchar_accepts false w s v) with (uchar_accepts true w s v); [reflexivity|].
+  unfold uchar_accepts.
+  destruct (Z.ltb_spec v 0) as [Neg|Pos].
+  - assert (s = true) by (destruct s; [reflexivity|unfold in_range, min_int in Hr; lia]). subst s.
+    assert (C1 : negb true || (v =? 0) || (0 <? v) = false) by lia. rewrite C1. reflexivity.
+  - rewrite land_high by assumption.
+    destruct (Z.leb_spec (sizeof w) 2) as [Sm|Lg]; cbn [orb]; [reflexivity|].
+    assert (L : (v <? 2097152) = true) by lia. rewrite L. reflexivity.
+Qed.
+
+(* F17: as written, a value with a bit above bit 20 set is never rejected *)
+Theorem char_range_refuted :
+  exists w s v width pad, 1 <= w /\ in_range w s v /\
+    py_format_char v width pad = COverflowError /\
+    uchar_to_unicode false w s v width pad = CText [65].
+Proof.
+  exists 64, true, 4294967361, 0, 32. unfold in_range. vm_compute. intuition congruence.
+Qed.
+
+Theorem char_range_refuted_exc :
+  exists w s v width pad, 1 <= w /\ in_range w s v /\
+    py_format_char v width pad = COverflowError /\
+    uchar_to_unicode false w s v width pad = CValueError.
+Proof.
+  exists 32, false, 2097152, 0, 32. unfold in_range. vm_compute. intuition congruence.
 Qed.
